@@ -218,6 +218,18 @@ def gen_case(rng: random.Random) -> Optional[SigCase]:
 
 
 # ------------------------------------------------------------------ building the decorated function
+def _annotated(base, vo, k: int):
+    """Annotated[base, <validator>] in the spellings programs use: the validator alone, after other metadata, and
+    layered on an alias that already is Annotated (typing flattens it: the validator comes last). Which spelling is a
+    function of the parameter's position only - nothing is drawn from the run's generator."""
+    if k % 3 == 0:
+        return typing.Annotated[base, vo]
+    if k % 3 == 1:
+        return typing.Annotated[base, "a description", vo]
+    alias = typing.Annotated[base, "unit: EUR", 42]
+    return typing.Annotated[alias, vo]
+
+
 def build(c: SigCase, rng=None):
     ctx = Ctx(G.STD_CLASSES, [], rng)
     deco = c.deco
@@ -233,7 +245,7 @@ def build(c: SigCase, rng=None):
         elif p["ann"] is not None:
             vo = ctx.validator(p["ann"].x)
             vobjs[(p["name"], "ann")] = vo
-            ann = typing.Annotated[typing.Any, vo]
+            ann = _annotated(typing.Any, vo, len(plist))
         if p["ovr"] is not None:
             vo = ctx.validator(p["ovr"].x)
             vobjs[(p["name"], "ovr")] = vo
@@ -246,7 +258,7 @@ def build(c: SigCase, rng=None):
         ret = PLAIN[deco["ret_plain"]][0]
         ret_spec = ctx.validator(deco["ret_ann"].x)
     elif deco["ret_ann"] is not None:
-        ret = typing.Annotated[typing.Any, ctx.validator(deco["ret_ann"].x)]
+        ret = _annotated(typing.Any, ctx.validator(deco["ret_ann"].x), len(plist) + 1)
     if deco["ret_ovr"] is not None:
         overrides[SG.RETURN_OVERRIDE_KEY] = ctx.validator(deco["ret_ovr"].x)
     sig = inspect.Signature(plist, return_annotation=ret)
